@@ -34,7 +34,7 @@ from vf.ref import http1 as ref
 PROPERTY = "C07"
 LEVEL = "exploration"
 ENGINE = "sansio"
-BUDGET = {"quick": (1300, 20), "thorough": (80000, 240)}
+BUDGET = {"quick": (1100, 20), "thorough": (80000, 230)}
 WORKERS = {"quick": 4, "thorough": 16}
 REQUIRED = [
     "limit.error", "limit.client", "limit.not_forwarded", "limit.exact", "m3.bound", "m3.streaming",
